@@ -455,6 +455,39 @@ def cookie_mechanism_case():
                 r = ('raised', type(e).__name__)
             if r[0] == 'OK':
                 return 'cookie mechanism accepted the wrong response %r' % (bad,)
+        # interleaved exchanges sharing one keyring: every pending exchange has a cookie id of its own, and the response a
+        # conforming client computes from the cookie stored under the id it was told is accepted
+        def answer(mech, msg):
+            ctx, cid, challenge = msg.split()
+            cookie = None
+            with open(mech.cookie_file, 'rb') as f:
+                for line in f:
+                    k_id, _t, k_hex = line.split()
+                    if k_id == cid:
+                        cookie = k_hex
+            if cookie is None:
+                return None
+            cc = b'abcdef0123456789'
+            return cc + b' ' + binascii.hexlify(hashlib.sha1(b':'.join([challenge, cc, cookie])).digest())
+        import binascii
+        kd = os.path.join(tmp, 'keyring2')
+        A, B, C = (authentication.BusCookieAuthenticator() for _ in range(3))
+        ma = A._step_one(str(os.getuid()), kd)[1]
+        mb = B._step_one(str(os.getuid()), kd)[1]
+        if ma.split()[1] == mb.split()[1]:
+            return 'two pending cookie exchanges were given the same cookie id %r' % ma.split()[1]
+        ra = answer(A, ma)
+        if ra is None or A._step_two(ra)[0] != 'OK':
+            return 'the right response of the first of two interleaved cookie exchanges was not accepted'
+        mc = C._step_one(str(os.getuid()), kd)[1]
+        if mc.split()[1] == mb.split()[1]:
+            return 'a third exchange, started while the second was pending, was given the pending exchange\'s cookie id %r' % mc.split()[1]
+        rc = answer(C, mc)
+        if rc is None or C._step_two(rc)[0] != 'OK':
+            return 'the right response of an exchange started while another was pending was not accepted'
+        rb = answer(B, mb)
+        if rb is None or B._step_two(rb)[0] != 'OK':
+            return 'the right response of the exchange that was pending throughout was not accepted'
     finally:
         shutil.rmtree(tmp, ignore_errors=True)
     return None
